@@ -67,6 +67,8 @@ def run(ctx):
                             exact = True
                 ok = sp_.op == "param" and sp_.a[1] == "value" and B.lin_eq(dl, ("c", 32)) and exact
         ctx.ob("E4.len", ty, ok, "%s::try_from: <[u8;32]>::try_from(value) Ok-arm (or len(value) == 32 + copy into a [u8; 32]) dominates the zero-rejecting big-endian import of that array" % ty, where=where(f))
+        _imps = {B.cname(strip_sites(s_.value)) for s_ in imp if strip_sites(s_.value).op == "call"} | {s_.callee[0] for s_ in imp}
+        check_success_is_decoders(ctx, P, ty, f, ev, lambda t, _n=_imps: t.op == "call" and B.cname(t) in _n, "the zero-rejecting importer")
     # the curve-tagged importers: tag byte + exactly 32 key bytes.  The array handed to the key importer is an exact-length
     # conversion of everything after the tag (`<[u8; 32]>::try_from(&bytes[1..])`, whose Ok arm means len == 33), or it is
     # taken under a guard that pins the length; a prefix-taking accessor (first_chunk, get(..n), chunks) without such a
@@ -167,6 +169,22 @@ def run(ctx):
     ctx.assume("GroupEncoding::from_bytes of both backends rejects points off the curve or outside the prime-order subgroup; vsss-rs Share::as_group_element / combine_shares_group end in GroupEncoding::from_bytes (dependency contracts, blstrs_plus 0.8.18 / bls12_381_plus 0.8.18 / vsss-rs 4.3.8)")
 
 
+def check_success_is_decoders(ctx, P, ty, f, ev, is_dec, what):
+    """No success of the reader's own: every value returned as Ok is built from the checked decoder's result or is
+    returned where the decoder's verdict has been branched on."""
+    for rb in sorted(ev.ret_at):
+        rv = strip_sites(ev.ret_at[rb])
+        alts = list(rv.a[0]) if rv.op == "phi" else [rv]
+        for a_ in alts:
+            if a_.op == "agg" and a_.a[0][0] == "adt" and len(a_.a[0]) > 2 and a_.a[0][2] == "Err":
+                continue
+            if a_.op == "call" and B.cname(a_) == "FromResidual::from_residual":
+                continue  # the `?` operator's early return: an Err (the residual of a Result carries no success)
+            via_value = any(is_dec(t) for t in subterms(a_))
+            via_path = any(hasattr(x, "op") and any(is_dec(t) for t in subterms(strip_sites(x))) for atom, pol in G.path_literals(ev, rb, P, checks_only=True) for x in atom[2:])
+            ctx.ob("E4.decode-verdict", "%s@bb%d" % (ty, rb), via_value or via_path, "%s::try_from hands out as success only what the checked decoder accepted (value built from %s=%s, exit behind its verdict=%s): %s" % (ty, what, via_value, via_path, show(a_, 3)), where=where(f, rb))
+
+
 def check_point_reader_exact_len(ctx, P, rs, types):
     """Raw point readers decode under len(input) == len(representation), on the input bytes themselves (a reader that
     takes a prefix accepts over-long input: trailing bytes, two values glued together)."""
@@ -201,16 +219,7 @@ def check_point_reader_exact_len(ctx, P, rs, types):
         # ... and no success of its own: whatever the reader returns as Ok is the checked decoder's payload, or is
         # returned where the decoder's verdict has been branched on (a shortcut that recognises "the identity" by a flag
         # byte, a cached value, accepts encodings the decoder would refuse)
-        is_fb = lambda t: t.op == "call" and B.cname(t) == "GroupEncoding::from_bytes"
-        for rb in sorted(ev.ret_at):
-            rv = strip_sites(ev.ret_at[rb])
-            alts = list(rv.a[0]) if rv.op == "phi" else [rv]
-            for a_ in alts:
-                if a_.op == "agg" and a_.a[0][0] == "adt" and len(a_.a[0]) > 2 and a_.a[0][2] == "Err":
-                    continue
-                via_value = any(is_fb(t) for t in subterms(a_))
-                via_path = any(hasattr(x, "op") and any(is_fb(t) for t in subterms(strip_sites(x))) for atom, pol in G.path_literals(ev, rb, P, checks_only=True) for x in atom[2:])
-                ctx.ob("E4.decode-verdict", "%s@bb%d" % (ty, rb), via_value or via_path, "%s::try_from hands out as success only what the checked decoder accepted (value built from from_bytes=%s, exit behind its verdict=%s): %s" % (ty, via_value, via_path, show(a_, 3)), where=where(f, rb))
+        check_success_is_decoders(ctx, P, ty, f, ev, lambda t: t.op == "call" and B.cname(t) == "GroupEncoding::from_bytes", "from_bytes")
 
 
 _SWALLOW = ("unwrap_or", "unwrap_or_default", "unwrap_or_else")
